@@ -462,7 +462,9 @@ func init() {
 					vals[i], _ = strconv.Atoi(t)
 				}
 				rr := &reader{toks: vals}
-				if argc := rr.next(); argc == 2 {
+				if argc := rr.next(); argc >= 2 {
+					// argv[1] is the link (the hook is configured as [vdump, %url, ...]); further arguments (media type
+					// placeholders) are the subject of the hook model's own batch
 					rr.text()
 					hooked = rr.text()
 				} else {
